@@ -54,6 +54,10 @@ type awArgs struct {
 	Num   int    `json:"num"`
 	P     string `json:"p"`
 	ID    string `json:"id"`
+	PubOld string `json:"pubold"`
+	PubNew string `json:"pubnew"`
+	Old    string `json:"old"`
+	New    string `json:"new"`
 }
 
 type awAcct struct {
@@ -64,6 +68,8 @@ type awAcct struct {
 }
 
 type awObs struct {
+	Pw     string              `json:"pw"`
+	PubPw  string              `json:"pubpw"`
 	Imp    []string            `json:"imp"`
 	Locked bool                `json:"locked"`
 	Accts  map[string][]awAcct `json:"accts"`
@@ -77,6 +83,22 @@ type awTrace struct {
 var awOwns = map[string]map[string]bool{
 	"C08": {"view": true, "ret": true},
 	"C03": {"issue": true, "ret": true},
+	"C05": {"ret-lock": true}, // what Unlock / ChangePassphrases answer
+}
+
+// the model's passphrase names
+func awPriv(name string) []byte {
+	if name == "p1" {
+		return privPass
+	}
+	return []byte("verif-private-pass-" + name)
+}
+
+func awPub(name string) []byte {
+	if name == "pub1" {
+		return pubPass
+	}
+	return []byte("verif-public-pass-" + name)
 }
 
 var awAddrType = map[string]waddrmgr.AddressType{"bip84": waddrmgr.WitnessPubKey, "bip86": waddrmgr.TaprootPubKey,
@@ -92,6 +114,7 @@ type awWorld struct {
 	ndry   int
 	npub   int
 	idx    int
+	pub    []byte // current public passphrase
 	silent bool // the behaviour left what the model describes (by design of the harness, not a difference)
 	diffs  [][4]interface{}
 	n      int
@@ -171,7 +194,7 @@ func replayAddrWallet(idx int, line []byte, prop string, seed int, root string, 
 		return
 	}
 	defer e.close()
-	w := &awWorld{e: e, prop: prop, idx: idx, xpubs: map[string]*hdkeychain.ExtendedKey{}, kinds: map[string]string{}}
+	w := &awWorld{e: e, prop: prop, idx: idx, pub: pubPass, xpubs: map[string]*hdkeychain.ExtendedKey{}, kinds: map[string]string{}}
 	if w.master, err = hdkeychain.NewMaster(e.seed, e.params); err != nil {
 		rep.AddError("trace %d: %v", idx, err)
 		return
@@ -208,6 +231,8 @@ func replayAddrWallet(idx int, line []byte, prop string, seed int, root string, 
 		m.Behav, _ = json.Marshal(cut)
 		rep.AddMismatch(m)
 	}
+	var lastExp *awObs
+	stopped := false
 	for si := range tr.Steps {
 		st := &tr.Steps[si]
 		var a awArgs
@@ -226,7 +251,11 @@ func replayAddrWallet(idx int, line []byte, prop string, seed int, root string, 
 		diverged := false
 		refusal := func(x string) bool { return x == "locked" || x == "watchonly" }
 		if ret != st.Ret && !(refusal(ret) && refusal(st.Ret)) {
-			w.add("ret", fmt.Sprintf("%s result", st.Op), ret, fmt.Sprintf("%s for %s", st.Ret, string(st.A)))
+			class := "ret"
+			if st.Op == "Unlock" || st.Op == "ChangeBoth" || refusal(ret) || refusal(st.Ret) {
+				class = "ret-lock"
+			}
+			w.add(class, fmt.Sprintf("%s result", st.Op), ret, fmt.Sprintf("%s for %s", st.Ret, string(st.A)))
 			diverged = true
 		}
 		var exp *awObs
@@ -242,10 +271,14 @@ func replayAddrWallet(idx int, line []byte, prop string, seed int, root string, 
 			rep.AddError("trace %d step %d: expectation does not decode: %v", idx, si, derr)
 			return
 		}
+		if exp != nil {
+			lastExp = exp
+		}
 		if w.silent {
 			for _, d := range w.diffs {
 				report(si, d)
 			}
+			stopped = true
 			break
 		}
 		if exp != nil && !diverged {
@@ -265,7 +298,38 @@ func replayAddrWallet(idx int, line []byte, prop string, seed int, root string, 
 		}
 		if diverged || len(w.diffs) > 0 {
 			rep.Inc("diverged_behaviours", 1)
+			stopped = true
 			break
+		}
+	}
+	// final probes (C05): whatever happened, after a lock exactly the current private passphrase unlocks, and a
+	// wallet reopened with the current public passphrase opens
+	if lastExp != nil && !stopped && awOwns[prop]["ret-lock"] {
+		w.diffs = nil
+		e.w.Lock()
+		deadline := time.Now().Add(5 * time.Second)
+		for !e.w.Locked() && time.Now().Before(deadline) {
+			time.Sleep(200 * time.Microsecond)
+		}
+		for _, p := range []string{"p1", "p2"} {
+			err := e.w.Unlock(awPriv(p), nil)
+			w.n++
+			want := "wrongpass"
+			if p == lastExp.Pw {
+				want = "ok"
+			}
+			if got := awClass(err); got != want {
+				w.add("ret-lock", fmt.Sprintf("final probe: Unlock(%s) after a lock (current private passphrase: %s)", p, lastExp.Pw), got, want)
+			}
+			if err == nil {
+				e.w.Lock()
+				for !e.w.Locked() && time.Now().Before(deadline) {
+					time.Sleep(200 * time.Microsecond)
+				}
+			}
+		}
+		for _, d := range w.diffs {
+			report(len(tr.Steps)-1, d)
 		}
 	}
 	rep.Count(1, len(tr.Steps), w.n)
@@ -456,12 +520,16 @@ func (w *awWorld) apply(st *awStep, a *awArgs, si int) (string, error) {
 		}
 		return st.Ret, nil
 	case "Unlock":
-		pass := privPass
-		if a.P != "p1" {
-			pass = []byte("not-the-passphrase-" + a.P)
-		}
-		err := e.w.Unlock(pass, nil)
+		err := e.w.Unlock(awPriv(a.P), nil)
 		w.n++
+		return awClass(err), nil
+	case "ChangeBoth":
+		err := e.w.ChangePassphrases(awPub(a.PubOld), awPub(a.PubNew), awPriv(a.Old), awPriv(a.New))
+		w.n++
+		if err == nil {
+			e.pubPass = awPub(a.PubNew)
+			w.pub = awPub(a.PubNew)
+		}
 		return awClass(err), nil
 	case "Restart":
 		e.stop()
@@ -556,7 +624,7 @@ func (w *awWorld) view(exp *awObs) {
 	defer db.Close()
 	err = walletdb.View(db, func(tx walletdb.ReadTx) error {
 		ns := tx.ReadBucket([]byte("waddrmgr"))
-		m, err := waddrmgr.Open(ns, pubPass, e.params)
+		m, err := waddrmgr.Open(ns, w.pub, e.params)
 		if err != nil {
 			return err
 		}
@@ -617,7 +685,7 @@ func (w *awWorld) shadowKnows(addr btcutil.Address) (bool, error) {
 	known := false
 	err = walletdb.View(db, func(tx walletdb.ReadTx) error {
 		ns := tx.ReadBucket([]byte("waddrmgr"))
-		m, err := waddrmgr.Open(ns, pubPass, e.params)
+		m, err := waddrmgr.Open(ns, w.pub, e.params)
 		if err != nil {
 			return err
 		}
